@@ -19,8 +19,10 @@ import (
 type Collection struct {
 	*config
 
-	mu   sync.RWMutex // protects byId and rng from concurrent access
+	mu   sync.RWMutex // protects byId from concurrent access
 	byId map[string]*item
+	// rngMu protects rng: ids are generated while only holding mu for reading, and reading from rng mutates it
+	rngMu sync.Mutex
 	// "change" events contain a *CollectionChange instance
 	bus minibus.Bus
 }
@@ -343,6 +345,8 @@ func (c *Collection) itemSlice(readConfig *ReadRequest) []idItem {
 }
 
 func (c *Collection) genID() (string, error) {
+	c.rngMu.Lock()
+	defer c.rngMu.Unlock()
 	return GenerateUniqueId(c.rng, func(candidate string) bool {
 		if c.idInterceptor != nil {
 			candidate = c.idInterceptor(candidate)
